@@ -7,6 +7,7 @@ import (
 	"os"
 	"path/filepath"
 	"runtime"
+	"sort"
 	"strings"
 	"time"
 
@@ -144,6 +145,20 @@ func runJob(job *Job) *JobResult {
 			if k != "done" && k != "infeasible" && k != "assume" {
 				fmt.Fprintf(os.Stderr, "    %s: %s\n", k, v)
 			}
+		}
+	}
+	if qstat {
+		type kv struct {
+			k string
+			v int
+		}
+		var l []kv
+		for k, v := range qstatMap {
+			l = append(l, kv{k, v})
+		}
+		sort.Slice(l, func(i, j int) bool { return l[i].v > l[j].v })
+		for i := 0; i < len(l) && i < 25; i++ {
+			fmt.Fprintf(os.Stderr, "QSTAT %7d %s\n", l[i].v, l[i].k)
 		}
 	}
 	return res
